@@ -383,7 +383,9 @@ def outReset (t : Topo) (s : State) (n : Nat) : Option State :=
   | (.emp e, _) :: _ =>
     if !(t.isChild n e && s.downOpen e && !(s.alive e)) then none
     else
-      let s0 := if n = 0 && t.attached then s else { s with downOpen := upd s.downOpen e false }
+      -- detached / manager: `handle_disconnect` closed the connection first; attached: it is
+      -- still open but reset, so `initiate_shutdown`'s send fails just the same
+      let s0 := { s with downOpen := upd s.downOpen e false }
       let s1 := baseShutdown t s0 n
       some { s1 with half := upd s1.half n true, outAlive := upd s1.outAlive n false }
   | _ => none
